@@ -6,12 +6,9 @@ order: `((-1) * distance) * weight` — not the flat index's `((-1) * weight) * 
 Floats are the symbolic `Go.FExpr`; IEEE rounding is not interpreted (driver: `hyb` op lines, bit for bit).
 -/
 import SemaModel.C03.Props
-import SemaModel.Generated.Hybrid
+import SemaModel.C03.HybridGen
 namespace Sema.C03
 open Sema Sema.Go Sema.Gen Sema.C10
-
-/-- the hybrid score `IndexVamana.Search` reports for a distance `d` and the optional query weight `w` -/
-def hybridGen (w : Option FExpr) (d : FExpr) : FExpr := Hybrid.vamana_hybrid ⟨d⟩ (Hybrid.vamana_weight ⟨w⟩)
 
 /-- the weight default: `weight := float32(1); if query.Weight != nil { weight = *query.Weight }` -/
 theorem C03_weight_default (w : Option FExpr) : Hybrid.vamana_weight ⟨w⟩ = w.getD (FExpr.lit 1) := by
